@@ -15,26 +15,57 @@ Arguments N.shiftr : simpl never.
 (* ------------------------------------------------------------------------- *)
 (* the side conditions follow from LegalPos                                   *)
 
-Lemma legal_pos_side : forall s, WfState s -> Rules.legal_pos (abs s) = true -> pawns_ok s /\ ep_ok s.
+(* Qed-time conversion must unfold legal_pos before andb: otherwise the kernel weak-head reduces
+   count_pieces over the 64 squares on both sides and compares the stuck terms (exponential) *)
+Local Strategy expand [Rules.legal_pos].
+Lemma legal_pos_parts : forall p, Rules.legal_pos p = true ->
+  forallb (fun s => negb ((srank s =? 0)%Z || (srank s =? 7)%Z) || negb (has p s White Pawn || has p s Black Pawn)) all_squares = true /\
+  match p_ep p with
+     | None => true
+     | Some t =>
+         let c := p_turn p in
+         (srank t =? (if is_white c then 5 else 2))%Z
+         && empty_at p t
+         && empty_at p (sq_of (sfile t) (srank t + fwd c))
+         && has p (sq_of (sfile t) (srank t - fwd c)) (opp c) Pawn
+     end = true.
+Proof.
+  intros p H. unfold Rules.legal_pos in H.
+  apply andb_prop in H. destruct H as [H He].
+  apply andb_prop in H. destruct H as [H _].
+  apply andb_prop in H. destruct H as [_ Hp]. split; assumption.
+Qed.
+
+Lemma legal_pos_pawns : forall s, WfState s -> Rules.legal_pos (abs s) = true -> pawns_ok s.
 Proof.
   intros s Hwf H. pose proof (wf_state_board s Hwf) as Hwb.
-  unfold Rules.legal_pos in H. rewrite !andb_true_iff in H.
-  destruct H as [[[[[_ _] _] Hp] _] He]. split.
-  - intros c t Ht. pose proof (test_lt64 _ _ (wf_slots _ Hwb c Pawn) Ht) as Ht64.
+  apply legal_pos_parts in H. destruct H as [Hp _].
+  intros c t Ht. pose proof (test_lt64 _ _ (wf_slots _ Hwb c Pawn) Ht) as Ht64.
     apply (forallb_squares _ Hp) in Ht64.
     apply (pawn_piece_at _ _ _ Hwb) in Ht. rewrite <- abs_p_at in Ht. apply has_iff in Ht.
     assert (Hh : has (abs s) t White Pawn || has (abs s) t Black Pawn = true)
       by (destruct c; rewrite Ht; [reflexivity | apply orb_true_r]).
     rewrite Hh in Ht64. cbn [negb] in Ht64. rewrite orb_false_r, negb_true_iff, orb_false_iff in Ht64.
     unfold srank, rank_of in *. lia.
-  - unfold ep_ok. cbn [abs p_ep p_turn] in He. fold (abs s) in He.
+Qed.
+
+Lemma legal_pos_ep : forall s, WfState s -> Rules.legal_pos (abs s) = true -> ep_ok s.
+Proof.
+  intros s Hwf H. pose proof (wf_state_board s Hwf) as Hwb.
+  apply legal_pos_parts in H. destruct H as [_ He].
+  unfold ep_ok. cbn [abs p_ep p_turn] in He. 
     destruct (st_ep s) as [t|] eqn:E; [|exact I]. cbv zeta.
-    rewrite !andb_true_iff in He. destruct He as [[[H1 H2] _] H4].
+    apply andb_prop in He. destruct He as [He H4].
+    apply andb_prop in He. destruct He as [He _].
+    apply andb_prop in He. destruct He as [H1 H2]. cbv zeta in H1.
     split; [exact (wf_state_ep s t Hwf E)|].
-    split; [apply Z.eqb_eq in H1; unfold srank, rank_of in *; destruct (is_white (st_turn s)); lia|].
+    split; [apply Z.eqb_eq in H1; unfold srank, rank_of in H1 |- *; destruct (is_white (st_turn s)); lia|].
     split; [apply vacant_iff; exact H2|].
     apply has_iff in H4. rewrite abs_p_at in H4. exact H4.
 Qed.
+
+Lemma legal_pos_side : forall s, WfState s -> Rules.legal_pos (abs s) = true -> pawns_ok s /\ ep_ok s.
+Proof. intros s Hwf H. split; [apply legal_pos_pawns | apply legal_pos_ep]; assumption. Qed.
 
 Theorem legal_pos_pawns_ep : forall s, LegalPos s -> pawns_ok s /\ ep_ok s.
 Proof.
@@ -235,6 +266,16 @@ Proof.
     apply build_dest. exact (test_lt64 _ _ Hx Ht).
 Qed.
 
+Lemma NoDup_flat_dest' : forall (G : N -> N -> N) c (o : N -> N) (cap : N -> option piece) x, x < 2 ^ 64 ->
+  (forall t pr, G t pr = build c Pawn (o t) t (cap t) (Some (promo_piece pr))) ->
+  NoDup (flat_map (fun t => map (G t) promotion_types) (iter_ones x)).
+Proof.
+  intros G c o cap x Hx HG.
+  rewrite (flat_map_ext _ (fun t => map (fun pr => build c Pawn (o t) t (cap t) (Some (promo_piece pr))) promotion_types)).
+  - apply NoDup_flat_dest. exact Hx.
+  - intros t. apply map_ext. intros pr. apply HG.
+Qed.
+
 Lemma pawn_moves_concat : forall s,
   pawn_moves s = concat [l_pushes s; l_promos s; l_doubles s;
                          l_cap_np s 1 (- (1)); l_cap_p s 1 (- (1)); l_ep s 1 (- (1));
@@ -272,20 +313,89 @@ Proof.
     + unfold l_pushes. cbv zeta. apply NoDup_map_dest; [apply land_lt; exact Hstep|].
       intros t Ht. rewrite <- build_by_moving. apply build_dest, Ht.
     + unfold l_promos. cbv zeta.
-      apply (NoDup_flat_dest (st_turn s) (orig1 (st_turn s)) (fun _ => None)). apply land_lt; exact Hstep.
+      apply (NoDup_flat_dest' (fun t pr => by_promoting (st_turn s) Pawn (orig1 (st_turn s) t) t (promo_piece pr))
+               (st_turn s) (orig1 (st_turn s)) (fun _ => None)); [apply land_lt; exact Hstep|].
+      intros t pr. symmetry. apply build_by_promoting.
     + unfold l_doubles. cbv zeta. apply NoDup_map_dest.
       * apply step_lt, step_lt, land_lt, Hp.
       * intros t Ht. rewrite <- build_by_moving. apply build_dest, Ht.
     + unfold l_cap_np. cbv zeta. apply NoDup_map_dest; [apply land_lt, land_lt, att_lt, Hwf|].
       intros t Ht. rewrite <- build_by_capturing. apply build_dest, Ht.
     + unfold l_cap_p. cbv zeta.
-      apply (NoDup_flat_dest (st_turn s) (origc (st_turn s) (- (1))) (fun t => Some (cap_kind (st_board s) t))).
-      apply land_lt, land_lt, att_lt, Hwf.
+      apply (NoDup_flat_dest' (fun t pr => by_capture_promoting (st_turn s) Pawn (origc (st_turn s) (- (1)) t) t
+                                             (cap_kind (st_board s) t) (promo_piece pr))
+               (st_turn s) (origc (st_turn s) (- (1))) (fun t => Some (cap_kind (st_board s) t)));
+        [apply land_lt, land_lt, att_lt, Hwf|].
+      intros t pr. symmetry. apply build_by_capture_promoting.
     + unfold l_ep. destruct (first_one _); [constructor; [intros []|constructor] | constructor].
     + unfold l_cap_np. cbv zeta. apply NoDup_map_dest; [apply land_lt, land_lt, att_lt, Hwf|].
       intros t Ht. rewrite <- build_by_capturing. apply build_dest, Ht.
     + unfold l_cap_p. cbv zeta.
-      apply (NoDup_flat_dest (st_turn s) (origc (st_turn s) (- (-1))) (fun t => Some (cap_kind (st_board s) t))).
-      apply land_lt, land_lt, att_lt, Hwf.
+      apply (NoDup_flat_dest' (fun t pr => by_capture_promoting (st_turn s) Pawn (origc (st_turn s) (- (-1)) t) t
+                                             (cap_kind (st_board s) t) (promo_piece pr))
+               (st_turn s) (origc (st_turn s) (- (-1))) (fun t => Some (cap_kind (st_board s) t)));
+        [apply land_lt, land_lt, att_lt, Hwf|].
+      intros t pr. symmetry. apply build_by_capture_promoting.
     + unfold l_ep. destruct (first_one _); [constructor; [intros []|constructor] | constructor].
 Qed.
+
+(* ------------------------------------------------------------------------- *)
+(* the three results for "every legal chess position"                         *)
+
+Lemma legal_pos_wf : forall s, LegalPos s -> WfState s.
+Proof. intros s H. unfold LegalPos, legal_posb in H. apply andb_true_iff in H. apply H. Qed.
+
+Theorem pawn_moves_spec_legal : forall s m, LegalPos s ->
+  (In m (pawn_moves s) <->
+   exists mv, kind_on (st_board s) (mv_from mv) = Some Pawn /\ mv_from mv < 64 /\ mv_to mv < 64 /\
+              Rules.pseudo_legal (abs s) mv = true /\ m = enc_move s mv).
+Proof.
+  intros s m H. destruct (legal_pos_pawns_ep s H) as [Hp He].
+  exact (pawn_moves_spec s m (legal_pos_wf s H) Hp He).
+Qed.
+
+Theorem pawn_moves_NoDup_legal : forall s, LegalPos s -> NoDup (pawn_moves s).
+Proof.
+  intros s H. destruct (legal_pos_pawns_ep s H) as [Hp He].
+  exact (pawn_moves_NoDup s (legal_pos_wf s H) Hp He).
+Qed.
+
+Theorem pawn_moves_bounds_legal : forall s m, LegalPos s -> In m (pawn_moves s) ->
+  m_origin m < 64 /\ m_dest m < 64.
+Proof.
+  intros s m H. destruct (legal_pos_pawns_ep s H) as [Hp He].
+  exact (pawn_moves_bounds s m (legal_pos_wf s H) Hp He).
+Qed.
+
+Print Assumptions pawn_moves_spec_legal.
+Print Assumptions pawn_moves_NoDup_legal.
+Print Assumptions pawn_moves_bounds_legal.
+
+(* ------------------------------------------------------------------------- *)
+(* non-vacuity: White Ke1 Pa7 Pe2 Pd5 Ph4, Black Ke8 Nb8 Pc6 Pe5 Ph5, White to move, e.p. target e6.
+   The generator gives 13 moves: e3, d6, a8=Q/R/B/N, e4 (double), axb8=Q/R/B/N, dxe6 e.p., dxc6; h4 is
+   blocked.  They are exactly the encodings of the rules' pseudo-legal pawn moves (all 64*64*5 candidates
+   are enumerated on the rules side). *)
+Definition ex_state : state :=
+  mkState (mkBoard (2^48 + 2^12 + 2^35 + 2^31) 0 0 0 0 (2^4) (2^36 + 2^42 + 2^39) (2^57) 0 0 0 (2^60))
+          White false false false false (Some 44) 0 1.
+Definition ex_spec_list (s : state) : list N :=
+  flat_map (fun f => flat_map (fun t => flat_map (fun pr =>
+     let mv := mkMove f t pr in
+     if (match kind_on (st_board s) f with Some Pawn => true | _ => false end) && Rules.pseudo_legal (abs s) mv
+     then [enc_move s mv] else []) promo_options) all_squares) all_squares.
+
+Example pawn_moves_example :
+  legal_posb ex_state = true /\
+  map (fun m => (m_origin m, m_dest m, m_promotion m, m_is_ep m, m_capture m)) (pawn_moves ex_state) =
+    [(12, 20, None, false, None); (35, 43, None, false, None);
+     (48, 56, Some Queen, false, None); (48, 56, Some Rook, false, None);
+     (48, 56, Some Bishop, false, None); (48, 56, Some Knight, false, None);
+     (12, 28, None, false, None);
+     (48, 57, Some Queen, false, Some Knight); (48, 57, Some Rook, false, Some Knight);
+     (48, 57, Some Bishop, false, Some Knight); (48, 57, Some Knight, false, Some Knight);
+     (35, 44, None, true, Some Pawn); (35, 42, None, false, Some Pawn)] /\
+  length (ex_spec_list ex_state) = 13%nat /\
+  forallb (fun m => existsb (N.eqb m) (ex_spec_list ex_state)) (pawn_moves ex_state) = true /\
+  forallb (fun m => existsb (N.eqb m) (pawn_moves ex_state)) (ex_spec_list ex_state) = true.
+Proof. vm_compute. repeat split; reflexivity. Qed.
